@@ -159,7 +159,8 @@ pub fn filter_file_pattern<'a>(
       matcher.strictness,
       MatchStrictness::Cst | MatchStrictness::Smart
     );
-    let fixed = matcher.fixed_string();
+    // unnamed tokens are compared by kind only, their text may be spelled differently in the file
+    let fixed = matcher.fixed_named_string();
     if need_fixed && !fixed.is_empty() && !file_content.contains(&*fixed) {
       return None;
     }
